@@ -617,10 +617,42 @@ pub fn run(ctx: &Ctx) -> i32 {
         }
     });
     acc.merge(enc_acc);
+    // (c') integers beyond 64 bits (YAML holds them; they travel through their own visitor): the writer fails at
+    //      every byte of the JSON / YAML output
+    let wide: Vec<&str> = vec!["- 18446744073709551616\n- 1\n", "340282366920938463463374607431768211455\n", "k: -9223372036854775809\nm: [18446744073709551615, 170141183460469231731687303715884105727]\n", "-170141183460469231731687303715884105728\n"];
+    let wide_acc = crate::par::run(wide.len() * 2, 1, |i, acc| {
+        let input = wide[i / 2].as_bytes();
+        let to = [Fmt::Json, Fmt::Yaml][i % 2];
+        let clean = run_slice(input, Some(Fmt::Yaml), to);
+        if !clean.verdict.is_ok() {
+            return;
+        }
+        for k in 0..clean.out.len() {
+            acc.evals += 1;
+            acc.count("writer_faults_on_integers_beyond_64_bits");
+            for mode in [Mode::Slice, Mode::Reader(Sched::All)] {
+                let w = MonWriter::new().with_fault(k, if k % 2 == 0 { FaultStyle::ShortThenFail } else { FaultStyle::RejectCrossing });
+                let wlog = w.log_handle();
+                let v = match &mode {
+                    Mode::Slice => guarded(|| xt::translate_slice(input, Some(xt::Format::Yaml), to.xt(), w)),
+                    Mode::Reader(s) => guarded(|| xt::translate_reader(SchedReader::new(input, s.clone()), Some(xt::Format::Yaml), to.xt(), w)),
+                };
+                if wlog.borrow().faults_returned == 0 {
+                    continue;
+                }
+                let ok = matches!(&v, Verdict::Err(e) if e.contains(WRITE_MARK));
+                if !ok {
+                    acc.violation(Violation { sig: format!("to {}: write failure on an integer beyond 64 bits reported without its cause", to.name()), case: json!({"part": "wide_integer", "input_preview": preview(input, 80), "to": to.name(), "k": k, "mode": mode.describe()}), observed: v.show(), expected: format!("an error containing '{WRITE_MARK}'") });
+                    return;
+                }
+            }
+        }
+    });
+    acc.merge(wide_acc);
     let n_cli = ctx.size(84, 840);
     let cli_acc = crate::par::run(n_cli, 2, |i, acc| cli_diagnostic(i, acc));
     acc.merge(cli_acc);
-    let rule = format!("{} generated common-model documents; (a) each spelled in one format in turn and damaged at EVERY byte position (<= 200 B; sampled above) by deleting the byte, inserting a stray structural byte, inserting a control / invalid UTF-8 byte, or truncating there, slice and reader alternating, confirmed malformed by the independent reader, judged for the three streaming targets; (a') YAML in each of UTF-16LE/BE, UTF-32LE/BE with one ill-formed code unit behind 0..39 characters, with and without a byte order mark, slice and reader: the message names the unit and its byte offset in the input as given; (b) one unrepresentable construct (null key / sequence key -> JSON, binary -> YAML, null -> TOML, 65..128-bit integer -> MessagePack) planted at a random path (depth <= 6) from every source that can spell it; (c) every third document: the writer fails at EVERY byte of the fault-free output (sampled above 600 B), three fault styles (short accept then fail, reject the crossing write, accept nothing more: Ok(0) - whose cause is std's WriteZero), slice and reader; (d) at the command line, failing inputs whose library message is short or many kilobytes long (a quoted 5-10 KB line, long keys, multi-byte text), file and stdin: stderr is exactly 'xt error in <input>: <the library's message>' and a newline; distinct non-trivial = distinct documents", n);
+    let rule = format!("{} generated common-model documents; (a) each spelled in one format in turn and damaged at EVERY byte position (<= 200 B; sampled above) by deleting the byte, inserting a stray structural byte, inserting a control / invalid UTF-8 byte, or truncating there, slice and reader alternating, confirmed malformed by the independent reader, judged for the three streaming targets; (a') YAML in each of UTF-16LE/BE, UTF-32LE/BE with one ill-formed code unit behind 0..39 characters, with and without a byte order mark, slice and reader: the message names the unit and its byte offset in the input as given; (b) one unrepresentable construct (null key / sequence key -> JSON, binary -> YAML, null -> TOML, 65..128-bit integer -> MessagePack) planted at a random path (depth <= 6) from every source that can spell it; (c) every third document: the writer fails at EVERY byte of the fault-free output (sampled above 600 B), three fault styles (short accept then fail, reject the crossing write, accept nothing more: Ok(0) - whose cause is std's WriteZero), slice and reader; also for YAML documents with integers beyond 64 bits to JSON / YAML; (d) at the command line, failing inputs whose library message is short or many kilobytes long (a quoted 5-10 KB line, long keys, multi-byte text), file and stdin: stderr is exactly 'xt error in <input>: <the library's message>' and a newline; distinct non-trivial = distinct documents", n);
     ev::finish(
         Finish { ctx, level: "fault_enumeration", rule, assumptions: vec!["equality with the message the source crate gives when called directly is NOT demanded (it legitimately differs with the visitor and reader kind)".into(), "reference reasons come from handing the construct / the same failing writer directly to the target crate inside the harness".into()], extra: serde_json::Map::new(), exhaustive: false, min_distinct: 300, must_reach: vec![("cli_diagnostics_longer_than_4_kib_in_full".into(), 20), ("illformed_code_unit_positions_checked".into(), 1000), ("input_side_messages_ok".into(), 5000), ("value_reason_present".into(), 1000), ("writer_reason_present".into(), 5000)] },
         acc,
